@@ -224,6 +224,8 @@ struct RebuildSearch {
     using Algo = TbfAlgorithm<Real, typename FX::Kernel, SI>;
     Spec spec; Report& rep; Progress& pg; int depth;
     u64 lastImplDigest = 0;
+    std::array<u64,5> lastImplParts{};      // per buffer class: cell data, multipoles, locals, particle data, particle rhs
+    bool dumpBuffers = false;
 
     static std::string opsStr(const std::vector<Op>& ops){
         std::string s;
@@ -320,6 +322,10 @@ struct RebuildSearch {
                     model.cnt[i][j % KH] += 1; model.phi[i][j % KH] += r2;
                 }
                 const auto res = fx.extract();
+                // periodic ordering: the reference model above does not define the results (images; C10 decides them), so the
+                // state keeps the implementation's own values -- otherwise two histories with different real results could
+                // share a canonical key and the history-independence oracle below would compare unrelated states
+                if(Periodic) for(size_t i = 0 ; i < n ; ++i) if(res[i].found){ model.cnt[i] = res[i].cnt; model.phi[i] = res[i].phi; }
                 for(size_t i = 0 ; i < n ; ++i){
                     if(!res[i].found) continue;
                     if(!Periodic && res[i].cnt != model.cnt[i]) out.add("rebuild:execute-after-rebuild-wrong-multiplicity", "particle " + std::to_string(i) + " after " + std::to_string(model.executes) + " executes");
@@ -336,6 +342,18 @@ struct RebuildSearch {
         }
         // the implementation state (all tree buffers) must be a function of the canonical key when nothing is pending
         lastImplDigest = model.pendingMove ? 0 : fx.treeDigest();
+        if(lastImplDigest) for(int w = 0 ; w < 5 ; ++w) lastImplParts[w] = fx.treeDigest(1 << w);
+        if(dumpBuffers){      // debugging aid for `rebuild:tree-depends-on-history`: which buffer differs
+            for(int w = 0 ; w < 5 ; ++w) std::cout << " digest[" << w << "]=" << fx.treeDigest(1 << w);
+            std::cout << "\n";
+            for(const auto& g : fx.tree->getParticleGroups()){
+                std::cout << "  particle group data " << g.getDataSize() << " bytes:";
+                for(long i = 0 ; i < long(g.getDataSize()) ; i += 8){ u64 v; std::memcpy(&v, g.getDataPtr()+i, 8); std::cout << " " << std::hex << v << std::dec; }
+                std::cout << "\n  rhs " << g.getRhsSize() << " bytes:";
+                for(long i = 0 ; i < long(g.getRhsSize()) ; i += 8){ u64 v; std::memcpy(&v, g.getRhsPtr()+i, 8); std::cout << " " << std::hex << v << std::dec; }
+                std::cout << "\n";
+            }
+        }
         return hcomb(k, u64(model.executes));
     }
 
@@ -343,7 +361,7 @@ struct RebuildSearch {
         const long nLeaves = 1L << (Dim*(spec.height-1));
         const std::string base = "tree: " + spec.str() + " ops=";
         std::unordered_set<u64> seen;
-        std::unordered_map<u64, std::pair<u64, std::string>> implOf;      // canonical key -> (tree digest, history)
+        std::unordered_map<u64, std::pair<u64, std::string>> implOf; std::unordered_map<u64, std::array<u64,5>> partsOf;      // canonical key -> (tree digest, history)
         std::deque<std::vector<Op>> frontier;
         frontier.push_back({});
         { Outcome o; Model m; seen.insert(replay({}, o, m)); rep.addOutcome(o, base + "(none)"); }
@@ -370,8 +388,8 @@ struct RebuildSearch {
                     // a state reached by a history that does not end with a rebuild keeps the grouping of its last rebuild: compare only rebuilt states
                     if(op.kind == 'R'){
                         auto it = implOf.find(key);
-                        if(it == implOf.end()) implOf.emplace(key, std::make_pair(lastImplDigest, opsStr(h2)));
-                        else if(it->second.first != lastImplDigest) out.add("rebuild:tree-depends-on-history", "same particles and results, different tree bytes after rebuild: " + it->second.second + " vs " + opsStr(h2));
+                        if(it == implOf.end()){ implOf.emplace(key, std::make_pair(lastImplDigest, opsStr(h2))); partsOf[key] = lastImplParts; }
+                        else if(it->second.first != lastImplDigest) out.add("rebuild:tree-depends-on-history", "same particles and results, different tree bytes after rebuild: " + it->second.second + " vs " + opsStr(h2) + " (buffer classes that differ:" + [&]{ std::string d; const char* nm[5] = {" cell-data", " multipoles", " locals", " particle-data", " particle-rhs"}; for(int w = 0 ; w < 5 ; ++w) if(partsOf[key][w] != lastImplParts[w]) d += nm[w]; return d; }() + ")");
                     }
                 }
                 rep.addOutcome(out, cs);
@@ -498,6 +516,13 @@ std::vector<Spec> c12Trees(const bool thorough){
         add(4, 3, {0, 15, 255, 100}, 2, false);
         add(1, 8, {0, 1, 7, 16, 30, 31, 127, 64}, 3, false);
         add(4, 2, {0, 5, 10, 15}, 1, false, MTwo);
+        // every block size 1..7 and both grouping modes on one sparse and one dense 3-D tree
+        for(long bs = 1 ; bs <= 7 ; ++bs) for(int og = 0 ; og < 2 ; ++og){
+            add(3, 4, {0, 7, 8, 63, 64, 448, 511}, bs, og != 0);
+            add(3, 3, {0,1,2,3,4,5,6,7,8,9,16,17,24,32,40,48,56,57,62,63}, bs, og != 0, MVaried);
+        }
+        add(2, 7, {0, 1, 2, 3, 4095, 4094, 2048, 1365}, 2, false);
+        add(1, 10, {0, 1, 2, 255, 256, 510, 511}, 2, true);
     }
     return t;
 }
@@ -533,7 +558,7 @@ int main(int argc, char** argv){
 #endif
 #ifdef VF_C13
         if(args.mode == "C13"){
-            const int depth = thorough ? 5 : 4;
+            const int depth = thorough ? 6 : 4;
             auto three = [](int dim, int h, std::vector<long> leaves, long bs, bool og){ Spec s = makeSpec(dim, h, leaves, MMixed, boxes()[0], bs, og, 2); return s; };
             int job = 0;
             auto mine = [&](){ return (ord++) % args.nbSlices == args.slice; };
